@@ -1,6 +1,7 @@
 """C02 - read-through: every read loads first; the merge is exhaustive;
 the None convention; in-place children; missing-resource discipline."""
 from ..engine import *
+from ..interp_expr import data_origin
 from ..graph import Val, show
 from ..report import norm_key
 from .. import AnalysisError
@@ -187,6 +188,37 @@ def check_merge(A, rep):
                 rep.fail("C02.d", norm_key("C02.d", func.qualname, stmt),
                          f"{func.qualname}: `{stmt}` forwards an element value that may be None to the child's _update, whose `None` = 'resource missing' convention makes it a silent no-op: "
                          "a container that became null in the backend keeps its old cached content", g.witness(w), g.label)
+        # C02.h the guard that decides "merge the existing child in place" may exclude None, nothing else about the value
+        for n in top:
+            if n.kind != "branch":
+                continue
+            r_ = g.reachable_from([y for (y, l) in g.succ[n.id] if l == "T"])
+            if not any(c.id in r_ for c in calls) or any(c.id in g.reachable_from([y for (y, l) in g.succ[n.id] if l == "F"], avoid=[h.id for h in heads]) for c in calls):
+                continue
+            c = n["cond"]
+            parts = list(c.args[1:]) if c.kind == "boolop" else [c]
+            bare = [p_ for p_ in parts if p_.kind in ("sub", "elem", "param") or (p_.kind == "not" and p_.args[0].kind in ("sub", "elem", "param"))]
+            bare = [p_ for p_ in bare if data_origin(p_ if p_.kind != "not" else p_.args[0]) is None
+                    and any(x.kind == "param" and x.args[0] == "data" for x in p_.walk())]
+            if bare:
+                rep.fail("C02.h", norm_key("C02.h", func.qualname, n.stmt),
+                         f"{func.qualname}: `{n.stmt}` decides by the truthiness of the new value whether an existing child is merged in place: an empty container replaces the child object, detaching retained handles",
+                         [n.where() + ": " + n.stmt], g.label)
+            else:
+                rep.ok("C02.h")
+        # C02.i a value of the wrong kind for the existing child must fall through to the converted store, not escape as an error
+        for c in calls:
+            tgt = [y for (y, l) in g.succ[c.id] if l == "e"]
+            if c.kind == "enter":
+                # inlined callee: look at the raise nodes inside its extent
+                tgt = [y for x in lv if x.kind == "raise" and x.stack[: len(c.stack)] == c.stack and len(x.stack) >= len(c.stack) for (y, l) in g.succ[x.id] if l == "e"]
+            okh = bool(tgt) and all(g.nodes[t].kind == "join" and g.nodes[t]["what"] == "except" and any(g.nodes[y].kind == "handler" and "ValueError" in g.nodes[y]["types"] for (y, l) in g.succ[t]) for t in tgt)
+            if okh:
+                rep.ok("C02.i")
+            else:
+                rep.fail("C02.i", norm_key("C02.i", func.qualname, c.stmt if c.kind != "enter" else "child-merge"),
+                         f"{func.qualname}: the merge into an existing child is not protected against a value of another kind (ValueError from the child's _update escapes instead of falling through to the converted store): a position that changed from list to dict/str makes every later access raise",
+                         [c.where() + ": " + c.stmt], g.label)
         # C02.e in-place path
         inplace = False
         for h in elem_heads:
